@@ -76,3 +76,45 @@ pub fn run_c02(args: &[u64]) -> Vec<Vec<u64>> {
     }
     lines
 }
+
+pub fn trace_hash(tr: &[(u16, u16)]) -> u64 {
+    let mut h: u64 = 7;
+    for (a, w) in tr {
+        h = (h * 31 + (*a as u64) * 65536 + *w as u64) % 2147483647;
+    }
+    h
+}
+
+/// case = feat fuel nraw raw.. ninp inp..
+pub fn run_c03(args: &[u64]) -> Vec<Vec<u64>> {
+    let mut c = Cur::new(args);
+    let feat = c.next() != 0;
+    let fuel = c.next();
+    let nraw = c.next() as usize;
+    let raw: Vec<u16> = c.take(nraw).iter().map(|x| *x as u16).collect();
+    let ninp = c.next() as usize;
+    let inp: Vec<u8> = c.take(ninp).iter().map(|b| *b as u8).collect();
+
+    set_features(feat);
+    lace::verif::arm(&inp, fuel, u64::MAX, true);
+    let mut env_slot: Option<RunEnvironment> = None;
+    let (k0, c0) = guarded(|| {
+        env_slot = Some(RunEnvironment::from_raw(&raw).expect("from_raw"));
+    });
+    if k0 != 0 {
+        lace::verif::disarm();
+        return vec![vec![if k0 == 1 { 5 } else { 6 }, c0]];
+    }
+    let mut env = env_slot.unwrap();
+    let (kind, code) = guarded(|| env.run());
+    let out = lace::verif::take_out();
+    let left = ninp as u64 - lace::verif::consumed();
+    let trace = lace::verif::take_trace();
+    lace::verif::disarm();
+    let zero = vec![0u16; 65536];
+    let mut l = vec![kind, code];
+    l.extend(enc_state(&mut env, &zero, &out, left));
+    l.push(trace.len() as u64);
+    l.push(trace_hash(&trace));
+    vec![l]
+}
